@@ -374,7 +374,12 @@ func c14Calibrate() (nMed, nCat int, tMed time.Duration) {
 	}
 }
 
+// the timeout clock is one process-wide object: the C14 legs take turns
+var c14ClockMu sync.Mutex
+
 func legC14Clock(c *Ctx) {
+	c14ClockMu.Lock()
+	defer c14ClockMu.Unlock()
 	c.Rule("histories on the real clock (period 1 ms) from the initial state: timed catastrophic/medium/quick matches of `(a+)+$` with timeouts {5,20,80} ms, groups of 4 concurrent timed matches, idle gaps 30..400 ms and idle until the goroutine exits by itself (timeout + 1 s slop), StopTimeoutClock; stamps + clock snapshots + goroutine presence after every step; replayed on Model.Clock.step (lag 25 ms); non-trivial = history with a timeout and a stop or natural exit followed by a restart (distinct by recorded history)")
 	regexp2.SetTimeoutCheckPeriod(time.Millisecond)
 	period := regexp2.VerifClockPeriod()
